@@ -181,7 +181,7 @@ def run_case(case):
         v.close(what, float(np.max(np.abs(got - exp))) if exp.size else 0.0, tol * sc * 100, op=op, history=hist[-4:])
 
     for step in range(case["nops"]):
-        op = str(rng.choice(["copy", "with_times", "with_times", "add", "add", "sum", "mul", "rmul", "div", "imul", "idiv", "shift", "construct", "typeadd"]))
+        op = str(rng.choice(["copy", "with_times", "with_times", "add", "add", "sum", "mul", "rmul", "div", "imul", "idiv", "shift", "construct", "typeadd", "regridadd", "buffers"]))
         ia, ib = int(rng.integers(0, len(pool))), int(rng.integers(0, len(pool)))
         a, b = pool[ia], pool[ib]
         before = [snapshot(o) for o in pool]
@@ -293,6 +293,41 @@ def run_case(case):
                     defn[id(a)] = [(n_, s_, f_, d_ + d) for n_, s_, f_, d_ in defn[id(a)]]
                     exp_ = sum(c_ * FUNCS[n_]((a.times - d_) * s_) for n_, s_, c_, d_ in defn[id(a)])
                     eq(a, exp_, "shifted function signal == its function on the shifted grid", op, scale=max(1.0, float(np.max(np.abs(exp_)))) * 1e3)
+            elif op == "regridadd":
+                # sum of function signals whose components carry *different* lead-in / lead-out buffers: a signal re-gridded onto a
+                # part of its span keeps the cut-off stretches as buffers, a freshly built one has none (or its own)
+                if not isinstance(a, FunctionSignal) or len(a.times) < 3:
+                    continue
+                i0 = int(rng.integers(0, len(a.times) - 2))
+                nt = np.array(a.times[i0:i0 + int(rng.integers(2, len(a.times) - i0 + 1))], float)
+                r_ = a.with_times(nt)
+                name = list(FUNCS)[int(rng.integers(0, len(FUNCS)))]
+                b2 = FunctionSignal(nt, _scaled(name, 1.0 / dt, scalar_only=bool(rng.random() < 0.3)), a.value_type)
+                if rng.random() < 0.5:
+                    b2.set_buffers(leading=float(rng.uniform(0, 5) * dt), trailing=float(rng.uniform(0, 5) * dt))
+                keep.extend([r_, b2])
+                first_is_regridded = bool(rng.random() < 0.5)
+                hist[-1] += "[window %d+%d, buffers %s / %s, %s]" % (i0, len(nt), r_._buffers, b2._buffers, "r+b" if first_is_regridded else "b+r")
+                res = (r_ + b2) if first_is_regridded else (b2 + r_)
+                own = [(name, 1.0 / dt, 1.0, 0.0)]
+                if defn.get(id(a)) is not None:
+                    parts = defn[id(a)] + own if first_is_regridded else own + defn[id(a)]
+                    exp = sum(c_ * FUNCS[n_]((nt - d_) * s_) for n_, s_, c_, d_ in parts)
+                    defn[id(res)] = parts
+                else:
+                    exp = np.array(r_.values) + np.array(b2.values)
+                exp_type = a.value_type
+            elif op == "buffers":
+                # growing the buffers of an unfiltered function signal changes nothing a caller can see
+                if not isinstance(a, FunctionSignal):
+                    continue
+                ev = np.array(a.values)
+                inplace = tuple(i for i, o in enumerate(pool) if o is a)
+                lead_, trail_ = float(rng.uniform(0, 6) * dt), float(rng.uniform(0, 6) * dt)
+                a.set_buffers(leading=lead_ if rng.random() < 0.7 else None, trailing=trail_ if rng.random() < 0.7 else None, force=bool(rng.random() < 0.3))
+                if not any(len(g) for g in a._filters):
+                    eq(a, ev, "buffers do not change the values of an unfiltered function signal", op)
+                v.check(len(a.values) == len(a.times), "one value per time sample", op=op, nvalues=len(a.values), ntimes=len(a.times), history=hist[-4:])
             elif op == "construct":
                 nv = int(rng.integers(0, 2 * N + 2))
                 ints = bool(rng.random() < 0.2)
